@@ -850,6 +850,7 @@ func (e *Engine) box(v Value) string {
 		if !e.declared[k] {
 			e.declared[k] = true
 			e.assumes = append(e.assumes, eq(sx(un, sx(fn, v.T)), v.T))
+			e.assumes = append(e.assumes, sx("<=", "0", sx(fn, v.T))) // interface payload ids are non-negative (modelling convention)
 		}
 	}
 	return sx("mk-ifc", fmt.Sprint(e.tid(t)), sx(fn, v.T))
